@@ -20,7 +20,10 @@ def main():
         os.makedirs(dst)
         shutil.copytree(os.path.join(repo, "snaxc"), os.path.join(dst, "snaxc"), ignore=shutil.ignore_patterns("__pycache__"))
         if spec[0] == "--patch":
-            subprocess.run(["patch", "-p1", "-s", "-d", dst, "-i", os.path.abspath(spec[1])], check=True)
+            r = subprocess.run(["patch", "-p1", "-s", "-d", dst, "-i", os.path.abspath(spec[1])], capture_output=True, text=True)
+            if r.returncode != 0:
+                print(f"MUTANT-DOES-NOT-APPLY {spec[1]}: {(r.stdout + r.stderr).strip()[:200]}")
+                return 3
         else:
             m = json.load(open(spec[0]))
             for e in m.get("edits", [m]):
